@@ -625,21 +625,64 @@ def _cert_layout(w: World):
             except _struct.error:
                 return [], f'unreadable struct format {fmt!r}'
             return sizes, f'struct format {fmt!r}'
-    sizes = []
+    # every name that holds a piece of the input is tracked as an interval [lo, hi) of the original buffer (hi None =
+    # up to the end), through re-slicing of a shrinking remainder as well as through absolute slices
+    params = [p for p in fi.params if p not in ('cls', 'self')]
+    if not params:
+        return [], 'no input parameter'
+    iv = {params[0]: (0, None)}
+    pieces = []
+
+    def const(e):
+        if e is None:
+            return None
+        if isinstance(e, ast.Constant) and isinstance(e.value, int):
+            return e.value
+        return 'x'
+
+    def sub(e):
+        """interval of a subscript of a tracked name, or None"""
+        if isinstance(e, ast.Subscript) and isinstance(e.value, ast.Name) and e.value.id in iv:
+            lo, hi = iv[e.value.id]
+            if isinstance(e.slice, ast.Slice):
+                a, b = const(e.slice.lower), const(e.slice.upper)
+                if a == 'x' or b == 'x' or e.slice.step is not None or (a or 0) < 0 or (b is not None and b < 0):
+                    return None
+                nlo = lo + (a or 0)
+                nhi = (lo + b) if b is not None else hi
+                return (nlo, nhi)
+            k = const(e.slice)
+            if isinstance(k, int) and k >= 0:
+                return (lo + k, lo + k + 1)
+        return None
+
+    def visit_value(e):
+        for x in ast.walk(e):
+            r = sub(x)
+            if r is not None:
+                return r
+        return None
     for st in fi.node.body:
-        if isinstance(st, ast.Assign) and isinstance(st.targets[0], ast.Tuple) and isinstance(st.value, ast.Tuple) and \
-                len(st.value.elts) == 2:
-            a, b = st.value.elts
-            if isinstance(a, ast.Subscript) and isinstance(a.slice, ast.Slice) and a.slice.lower is None and \
-                    isinstance(a.slice.upper, ast.Constant) and isinstance(b, ast.Subscript) and isinstance(b.slice, ast.Slice) \
-                    and isinstance(b.slice.lower, ast.Constant) and b.slice.lower.value == a.slice.upper.value:
-                sizes.append(a.slice.upper.value)
-    txt = ast.unparse(fi.node).replace(' ', '')
-    if _re.search(r'\w+\[0\]==255', txt):
-        sizes.append(1)
-    if _re.search(r'=\w+\[1:\]', txt):
-        sizes.append(64)
-    return sizes, 'progressive slicing'
+        if not isinstance(st, ast.Assign) or len(st.targets) != 1:
+            continue
+        tg, val = st.targets[0], st.value
+        pairs = list(zip(tg.elts, val.elts)) if isinstance(tg, ast.Tuple) and isinstance(val, ast.Tuple) and \
+            len(tg.elts) == len(val.elts) else [(tg, val)]
+        new = {}
+        for t, v in pairs:
+            r = sub(v) if isinstance(v, ast.Subscript) else visit_value(v)
+            if r is None or not isinstance(t, ast.Name):
+                continue
+            if t.id in iv and r[1] is None and r[0] >= iv[t.id][0] and isinstance(v, ast.Subscript):
+                new[t.id] = r           # the remainder shrinks
+            else:
+                pieces.append(r)
+                if isinstance(v, ast.Subscript):
+                    new[t.id] = r
+        iv.update(new)
+    pieces = sorted(set(pieces), key=lambda p: p[0])
+    sizes = [(hi - lo) if hi is not None else 64 for lo, hi in pieces]
+    return sizes, 'slicing'
 
 
 def cert_padding(w: World, rep: Report, rule: str):
